@@ -377,8 +377,21 @@ class XWorld(hc.World):
                     O[n].definition = op["defn"]
                 if op.get("unit") is not None:
                     O[n].unit = op["unit"]
-                if op.get("vals") is not None:
+                if op.get("vals") is not None and "dt" not in op:
                     O[n].values = op["vals"]
+                elif op.get("vals") is not None:
+                    # (round 5) values of any type: the dtype the constructor inferred is taken off first;
+                    # a dtype of its own converts the values or leaves everything as it was
+                    try:
+                        O[n].values = None
+                        O[n].dtype = None
+                        O[n].values = op["vals"]
+                        if op["dt"] is not None:
+                            O[n].dtype = op["dt"]
+                    except Exception:
+                        pass
+                if op.get("ref") is not None:
+                    O[n].reference = op["ref"]
             return
         created = []
         try:
@@ -472,6 +485,17 @@ def oracle_snap(snap):
     return [BLANK if o is None else o for o in snap]
 
 
+# (seeded round 5) values of the Properties in the extended histories: not only small int lists (which
+# every other int Property takes) but texts of which all / none / only the first ones convert to the
+# dtype of a same-named Property elsewhere, floats, booleans, a date, no values at all - whether a pair
+# of Properties can be merged (what merge_check answers, observed before the operation) and whether the
+# merge then goes through must agree for every such pair
+X_VALS = [["7", "eight"], ["7", "8"], ["x"], ["7", "8", "nine", "10"], [1.5], [1.5, 2.5], ["1.5", "x"],
+          [True], ["true", "maybe"], ["2020-01-02"], [], ["eight"], [1, 2, 3], ["7", "8", "9"], ["1", "2.5"],
+          ["2", "1", "x"], [2, 7]]
+X_DTYPES = [None, None, None, None, "int", "float", "string", "boolean", "date", "text"]
+
+
 class GenX(hc.Gen):
     """Histories mixing the primitive operations with clone(+attach) / merge / link / clean."""
 
@@ -481,7 +505,12 @@ class GenX(hc.Gen):
             op["defn"] = r.choice([None, None, "d1", "d2"])
         elif op["kind"] == "prop":
             op["unit"] = r.choice([None, None, "mV", "V"])
-            op["vals"] = r.choice([[1], [1], [2], [1, 2]])
+            if r.random() < 0.55:
+                op["vals"] = r.choice([[1], [1], [2], [1, 2]])
+            else:
+                op["vals"] = list(r.choice(X_VALS))
+                op["dt"] = r.choice(X_DTYPES)
+                op["ref"] = r.choice([None, None, "r1"])
         return op
 
     def after_clone(self):
@@ -624,7 +653,15 @@ class C03(HeapCheck):
         "document_query_is_chain_root", "document_query_is_chain_root_ext", "document_query_none",
         # the link setter after a refused merge (fixes 592a7e3, dccf4ba)
         "stored_link_not_reassigned", "reresolve_does_not_nest", "legacy_relink_runs_out_of_budget",
-        "stored_link_refused_unchanged"]]
+        "stored_link_refused_unchanged",
+        # fuel adequacy and monotonicity of the compound operations (Proofs/HeapExtFuel, HeapExtCount)
+        "budget_monotone", "budget_irrelevant", "merge_budget_monotone", "unmerge_budget_monotone",
+        "clean_budget_monotone", "link_budget_monotone", "unmerge_terminates", "clean_terminates",
+        "clean_budget_independent", "merge_terminates", "merge_budget_independent", "link_terminates",
+        "link_terminates_unresolved", "link_budget_independent", "run_budget_monotone",
+        "reachable_ops_terminate", "ancestor_link_unfolds", "op_terminates", "history_terminates",
+        "merge_at_most_doubles", "link_terminates_closed", "link_budget_independent_closed",
+        "op_terminates_uniform",]]
     quick_n = 1500
     thorough_n = 40000
     case_timeout = 10
@@ -667,7 +704,12 @@ class C03(HeapCheck):
             "every / some / no object between the operations, compared with Model/HeapQuery.lean and with the "
             "root of the parent chain; get_path / traversals / absolute lookups have to come back), chains of "
             "nested Sections moved by every route, Properties without values, merge / link sources built "
-            "around the destination's child names (empty or filled, same or other type). Non-trivial = at least 5 "
+            "around the destination's child names (empty or filled, same or other type). Since seeded round 5: "
+            "Properties of the extended histories with texts of which all / none / only the first ones convert, "
+            "floats, booleans, dates, no values and a dtype of their own (a pair merge_check lets through must "
+            "merge), refused constructor calls whose LATER argument is the invalid one, containers with 8-15 "
+            "children and operations aimed at the late ones (positions beyond 5, clashes with a late sibling, "
+            "extend arguments of 4-7 objects with the offending one last). Non-trivial = at least 5 "
             "executed ops of at least 3 kinds (extended histories: at least one extended operation); distinct "
             "= distinct canonical JSON of the history.")
 
